@@ -32,6 +32,12 @@ C16_Items == {It(k, d, "none", 0, FALSE, 0, doc) : k \in {"def", "adef", "class"
              \cup {It("def", 1, deco, 0, FALSE, 0, Free1) : deco \in {"property", "setter", "static", "classm"}}
              \cup {It(k, d, deco, 0, FALSE, 0, Free1) : k \in {"def", "adef"}, d \in 0..1, deco \in {"plain", "wraps"}}
 
+\* ---- clauses: documented definitions inside except / else / finally / case / if-else / for-else clauses and for bodies,
+\*      at module level, in a class body, nested in each other
+Clause_Items == {It(k, d, "none", 0, FALSE, 0, NoDoc) : k \in ClauseKinds \cup {"try"}, d \in 0..1}
+                \cup {It(k, d, "none", 0, FALSE, 0, Free1) : k \in {"def", "adef", "class"}, d \in 0..2}
+                \cup {It("class", 0, "none", 0, FALSE, 0, NoDoc), It("def", 1, "static", 0, FALSE, 0, Free1), It("ifmain", 0, "none", 0, FALSE, 0, NoDoc)}
+
 \* a core alphabet for longer modules (4 items)
 C16_Core == {It(k, d, "none", 0, FALSE, 0, doc) : k \in {"def", "class"}, d \in 0..2, doc \in {NoDoc, Free1}}
             \cup {It(k, d, "none", 0, FALSE, 0, NoDoc) : k \in {"iftrue", "ifmain", "try"}, d \in 0..1}
